@@ -2,8 +2,6 @@ package refl
 
 import (
 	"fmt"
-	"go/ast"
-	"go/types"
 	"sort"
 	"strings"
 
@@ -18,14 +16,12 @@ func RunMeth(c *core.Ctx) {
 		for _, m := range g.Msgs {
 			con := m.Q() + " protoiface.Methods"
 			if m.MethodsLit == nil {
-				c.Fail("METH", con, "methods literal not found", "", src)
+				c.Fail("METH", con, "protoiface.Methods value not found", "", src)
 				continue
 			}
 			got := map[string]string{}
-			for _, e := range m.MethodsLit.Elts {
-				if kv, ok := e.(*ast.KeyValueExpr); ok {
-					got[types.ExprString(kv.Key)] = qualExpr(g.Info, kv.Value)
-				}
+			for k, v := range m.MethodsFields {
+				got[k] = qualExpr(g.Info, v)
 			}
 			var bad []string
 			for _, k := range []string{"Merge", "CheckInitialized"} {
@@ -43,17 +39,10 @@ func RunMeth(c *core.Ctx) {
 					bad = append(bad, k+" is not set")
 				}
 			}
-			// the literal must be what ProtoMethods returns
-			okRet := false
-			if pm := m.ProtoMethods; pm != nil && len(pm.Body.List) > 0 {
-				if rs, ok := pm.Body.List[len(pm.Body.List)-1].(*ast.ReturnStmt); ok && len(rs.Results) == 1 {
-					if ue, ok := rs.Results[0].(*ast.UnaryExpr); ok && ue.X == ast.Expr(m.MethodsLit) {
-						okRet = true
-					}
-				}
-			}
+			// the value must be what ProtoMethods returns
+			okRet := m.MethodsReturned
 			if !okRet {
-				bad = append(bad, "ProtoMethods does not return the address of this literal")
+				bad = append(bad, "ProtoMethods does not return (the address of) this value")
 			}
 			c.Check(len(bad) == 0, "METH", con, "Merge and CheckInitialized left to the generic implementations; Flags = deterministic|discard-unknown; Size/Marshal/Unmarshal set",
 				strings.Join(bad, "; "), pos(c, g, m.MethodsLit.Pos()), src)
